@@ -43,6 +43,21 @@ def scenarios(rng, tier):
     for ln in (0, 14, 31, 32, 33, 35, 36, 37, 41, 42):
         start('trunc_%d' % ln)
         s.classify(0, discover(M, gen=7, stations=[own, own])[:ln], fill='00')
+    # what is "known": generations that are byte-swaps of each other are different sessions; a session stored behind a hole in
+    # the table (an earlier one removed or expired) is known; a session idle for long is known until the tick removes it
+    for k in range(12 if tier == 'quick' else 200):
+        G = rng.choice([0x1234, 0x00FF, 0xFF00, 0x0100, 0xABCD, rng.randrange(1, 65536)]); Gs = ((G & 255) << 8) | (G >> 8)
+        start('known_swap_%d' % k); s.op('st_add 0', hx(M), G, 7)
+        for g2, q2 in ((Gs, 8), (Gs, 7), (G, 8), (G, 7)):
+            s.classify(0, discover(M, gen=g2, seq=q2, stations=[own] if k % 2 else [mac(9)]), fill='00')
+        start('known_hole_%d' % k); X, Y, Z = mac(50), mac(51), mac(52)
+        s.op('st_add 0', hx(X), 1, 1); s.op('st_add 0', hx(Y), 1, 1); s.op('st_add 0', hx(Z), 2, 5)
+        if k % 2: s.op('st_remove 0', hx(X), 1)
+        else: s.op('adv 30000'); s.op('st_add 0', hx(Y), 1, 1); s.op('st_add 0', hx(Z), 2, 5); s.op('adv 31000'); s.op('tick 0')
+        s.classify(0, discover(Y, gen=1, seq=2, stations=[own] if k % 3 else [mac(9)]), fill='00')
+        s.classify(0, discover(Z, gen=2, seq=6, stations=[mac(9)]), fill='00'); s.classify(0, discover(X, gen=1, seq=2, stations=[mac(9)]), fill='00')
+        start('known_idle_%d' % k); s.op('st_add 0', hx(M), 3, 1); s.op('adv', rng.choice([59000, 60000, 61000, 120000, 4000000]))
+        s.classify(0, discover(M, gen=3, seq=2, stations=[mac(9)]), fill='00'); s.classify(0, discover(M, gen=3, seq=1, stations=[own]), fill='00')
     # Reset: topology-wide iff the REAL destination is broadcast, whatever the Ethernet destination is
     for ed in (BCAST, own, mac(77)):
         for rd in (BCAST, own, mac(77), bytes([0xFF] * 5 + [0xFE])):
